@@ -44,6 +44,7 @@ let dispatch (name : string) (args : M.n list) : M.n list list =
   | "DBGS" -> M.run_dbgs args
   | "WATCH" -> M.run_watch args
   | "FEAT" -> M.run_feat args
+  | "FEAT2" -> M.run_feat2 args
   | _ -> failwith ("unknown case kind " ^ name)
 
 let () =
